@@ -171,6 +171,19 @@ fn build(c: &Case) -> (String, usize, Option<(usize, Option<char>)>) {
     }
 }
 
+/// Releases a value without recursion (the drop glue of a deeply nested value is recursive,
+/// which is outside C03; the harness must neither overflow nor leak).
+fn release(v: Value) {
+    let mut pending = vec![v];
+    while let Some(v) = pending.pop() {
+        match v {
+            Value::Array(a) => pending.extend(a),
+            Value::Object(o) => pending.extend(o.into_iter().map(|e| e.value)),
+            _ => {}
+        }
+    }
+}
+
 fn run_case_in_thread(c: &Case) -> Result<(), String> {
     let (doc, frags, err) = build(c);
     let o = Options {
@@ -188,8 +201,8 @@ fn run_case_in_thread(c: &Case) -> Result<(), String> {
                     let vol = v.volume();
                     let maplen = map.len();
                     let root = map.iter().next().map(|(_, e)| (e.span.start(), e.span.end(), e.volume));
-                    // dropping a deep value is recursive (outside C03): leak it
-                    std::mem::forget(v);
+                    // dropping a deep value is recursive (outside C03): dismantle it iteratively
+                    release(v);
                     if n != frags {
                         return Err(format!("traverse() yields {n} fragments, the document has {frags}"));
                     }
@@ -202,7 +215,7 @@ fn run_case_in_thread(c: &Case) -> Result<(), String> {
                     Ok(())
                 }
                 (Ok((v, _)), Some(_)) => {
-                    std::mem::forget(v);
+                    release(v);
                     Err("an invalid document was accepted".into())
                 }
                 (Err(e), None) => Err(format!("a valid document was rejected: {e}")),
@@ -296,9 +309,17 @@ fn run_range(tier: Tier, start: usize, end: usize, cs: &[Case], t: &mut Tally) {
         }
         let status = child.wait().expect("wait");
         if let Some(i) = started {
-            // the child died inside case i
+            // the child died inside case i: a stack overflow shows as SIGSEGV / SIGABRT / SIGBUS;
+            // anything else (e.g. SIGKILL from the kernel's OOM killer) is a machinery problem
+            use std::os::unix::process::ExitStatusExt;
+            let sig = status.signal().unwrap_or(0);
             t.evals += 1;
             t.states += 1;
+            if ![6, 7, 11].contains(&sig) {
+                t.violation("MACHINERY-pump", format!("pump child killed by signal {sig} in case {i} (not a stack overflow)"), case_json(i, &cs[i], tier));
+                next = i + 1;
+                continue;
+            }
             t.violation(
                 "",
                 format!("parsing/traversing a document nested {} deep in a {} KiB stack killed the process ({status})", cs[i].depth, cs[i].stack_kib),
